@@ -178,9 +178,46 @@ def run(ctx):
         return ["(%s, %s, %s, %s, %s, %s, %s, %s)" % (coq_list(c["rows"][0]), coq_list(c["rows"][1]), coq_q(c["s"]),
                                                   coq_list(c["rows2"][0]), coq_list(c["rows2"][1]), coq_q(c["t"]), o, coq_q(F(1, 2 ** 30)))]
     a_ni = lambda c: [enc_f(c["s"]), enc_arr(c["rows"]), enc_f(c["t"]), enc_arr(c["rows2"])]
+    # structured Jacobians: one curve is an axis-parallel segment in each of the four directions (exact zeros in the 2x2
+    # system, both signs of the pivot candidates), the other a random curve
+    rng = ctx.rng
+    axis = []
+    for rep in range(2 if ctx.quick() else 12):
+        for (dx, dy) in ((1, 0), (-1, 0), (0, 1), (0, -1)):
+            p0 = (dyadic(rng, 4, 1), dyadic(rng, 4, 1))
+            L = F(rng.randint(1, 8), 2)
+            seg = [[p0[0], p0[0] + dx * L], [p0[1], p0[1] + dy * L]]
+            other = rnd_rows(rng, rng.randint(1, 5), 2, 6, 2)
+            s_, t_ = F(rng.randint(0, 8), 8), F(rng.randint(0, 8), 8)
+            axis.append({"n": 1, "rows": seg, "s": s_, "t": t_, "rows2": other})
+            axis.append({"n": len(other[0]) - 1, "rows": other, "s": s_, "t": t_, "rows2": seg})
+    pl = pl + axis
+    def judge_ni(c, op, cfg, raw):
+        """the step must be the exact solution of J (ds, dt) = B2(t) - B1(s), J = [B1'(s), -B2'(t)]"""
+        f = [oq.bernstein(c["rows2"][k], c["t"]) - oq.bernstein(c["rows"][k], c["s"]) for k in range(2)]
+        d1 = [deriv_exact(r, c["s"]) for r in c["rows"]]
+        d2 = [deriv_exact(r, c["t"]) for r in c["rows2"]]
+        det = d1[0] * (-d2[1]) - (-d2[0]) * d1[1]
+        if det == 0:
+            return None if "exc" in raw else "singular Jacobian but the call returned normally"
+        if "exc" in raw:
+            return "raised %s on a regular Jacobian: %s" % (raw["exc"], raw.get("msg", "")[:80])
+        ds = (f[0] * (-d2[1]) - (-d2[0]) * f[1]) / det
+        dt = (d1[0] * f[1] - f[0] * d1[1]) / det
+        got = dec_res(raw["ok"])
+        if not all(isinstance(x, F) for x in got):
+            return "non-finite Newton update %r" % (got,)
+        want = (c["s"] + ds, c["t"] + dt)
+        scale = max(abs(want[0]), abs(want[1]), F(1))
+        # conditioning: allow rounding relative to the size of the system
+        big = max([abs(x) for x in f + d1 + d2] + [F(1)])
+        tol = F(1, 2 ** 30) * scale * max(F(1), big * big / abs(det))
+        if abs(got[0] - want[0]) > tol or abs(got[1] - want[1]) > tol:
+            return "Newton step (%r, %r), exact solution of the linearised system (%r, %r)" % (float(got[0]), float(got[1]), float(want[0]), float(want[1]))
+        return None
     correspond(ctx, "newton_refine_intersect", pl,
                [("shim.newton_refine_intersect", a_ni, val_out), ("hazmat.newton_refine_intersect", a_ni, val_out)],
-               coq_ni, HEADER, "chk_newton_intersect", nontrivial=nt)
+               coq_ni, HEADER, "chk_newton_intersect", judge=judge_ni, nontrivial=nt)
     # triangles
     tr = gen_tri(ctx)
 
